@@ -6,6 +6,7 @@ import Rspirv.Generated.Spirv
 import Rspirv.Generated.Disas
 import Rspirv.Generated.Reflect
 import Rspirv.Generated.Traversals
+import Rspirv.Generated.Lift
 /-! The table sets the models are instantiated with: everything comes from `Rspirv.Generated.*`, i.e. from the working
 tree of this run. The driver executes the models on exactly these instances and the `Props` files prove their table
 checks about exactly these instances. -/
@@ -64,5 +65,22 @@ def theDTables : DisTables :=
     vExtInstInteger := v_LiteralExtInstInteger
     isType := reflectBit 4 }
 
+
+open Rspirv.Generated.Operands in
+def theLiftTables : LiftTables :=
+  { branch := Rspirv.Generated.Lift.branchArms, terminator := Rspirv.Generated.Lift.terminatorArms
+    op := Rspirv.Generated.Lift.opArms, type_ := Rspirv.Generated.Lift.typeArms
+    capability := Rspirv.Generated.Lift.capabilityArm, memoryModel := Rspirv.Generated.Lift.memoryModelArm
+    function := Rspirv.Generated.Lift.functionArm
+    vLit64 := v_LiteralBit64, vLitString := v_LiteralString, vIdRef := v_IdRef, vLit32 := v_LiteralBit32
+    vSamplerAddressingMode := v_SamplerAddressingMode, vSamplerFilterMode := v_SamplerFilterMode
+    opLine := op_Line, opPhi := op_Phi, opConstantTrue := op_ConstantTrue, opConstantFalse := op_ConstantFalse
+    opConstant := op_Constant, opConstantComposite := op_ConstantComposite, opConstantSampler := op_ConstantSampler
+    opConstantNull := op_ConstantNull
+    opConstantCompositeContinuedINTEL := op_ConstantCompositeContinuedINTEL
+    opSpecConstantCompositeContinuedINTEL := op_SpecConstantCompositeContinuedINTEL
+    nInt := nameCode "Int", nFloat := nameCode "Float", nWidth := nameCode "width", nSignedness := nameCode "signedness"
+    nFpEncoding := nameCode "floating_point_encoding", nFunctionControl := nameCode "function_control"
+    nCapability := nameCode "capability" }
 
 end Rspirv.Instances
